@@ -69,7 +69,10 @@ Inductive expr :=
 | EShallow (a : N) (e : expr)
 | EOut (o : expr) (subs : list expr)
 | ECall (fs : list N) (args : list (N * expr))        (* one of the analysed functions (by fid) *)
-| ENew (a : N) (inits : list N) (args : list (N * expr))
+| EMeth (cands : list (N * N)) (self : expr) (args : list (N * expr))
+   (* method call: candidates (class tag, fid); those whose class tag the receiver may have are called; a receiver
+      of unknown class (blob) selects all *)
+| ENew (a : N) (cls : N) (inits : list N) (args : list (N * expr))
 | EMut (recv : expr) (vals : list expr)
 | EUnion (es : list expr)
 | EEff (subs : list expr) (e : expr).
@@ -95,12 +98,13 @@ Record fundef := mkfun {
 }.
 
 (* ------------------------------------------------------------------ heap *)
-Record obj := mkobj { ofields : list (N * ids); orest : ids; ouniq : bool }.
+Record obj := mkobj { ofields : list (N * ids); orest : ids; ouniq : bool; ocls : ids }.
+(* ocls: class tags of the object (0 = built-in container made by a literal; [] = unknown) *)
 Definition heap := list (N * obj).
 
 Fixpoint hfind (i : N) (h : heap) : option obj :=
   match h with [] => None | (j, o) :: r => if N.eqb i j then Some o else hfind i r end.
-Definition blob (i : N) : obj := mkobj [] [i] false.
+Definition blob (i : N) : obj := mkobj [] [i] false [].
 Definition hget (i : N) (h : heap) : obj := match hfind i h with Some o => o | None => blob i end.
 Fixpoint hset (i : N) (o : obj) (h : heap) : heap :=
   match h with
@@ -150,10 +154,10 @@ Fixpoint sadd (k : N) (l : list N) : list N :=
 Definition skeys (a b : list N) : list N := fold_left (fun acc k => sadd k acc) b (fold_left (fun acc k => sadd k acc) a []).
 Definition ojoin (a b : obj) : obj :=
   mkobj (map (fun k => (k, union (fget a k) (fget b k))) (skeys (map fst (ofields a)) (map fst (ofields b))))
-        (union (orest a) (orest b)) (ouniq a && ouniq b).
+        (union (orest a) (orest b)) (ouniq a && ouniq b) (union (ocls a) (ocls b)).
 Definition oeqb (a b : obj) : bool :=
   forallb (fun k => seteq (fget a k) (fget b k)) (skeys (map fst (ofields a)) (map fst (ofields b)))
-  && seteq (orest a) (orest b) && Bool.eqb (ouniq a) (ouniq b).
+  && seteq (orest a) (orest b) && Bool.eqb (ouniq a) (ouniq b) && seteq (ocls a) (ocls b).
 Definition hkeys (a b : heap) : ids := union (map fst a) (map fst b).
 Definition hjoin (a b : heap) : heap :=
   map (fun i => (i, match hfind i a, hfind i b with
@@ -203,18 +207,18 @@ Definition find_fun (name : N) : option fundef := find (fun f => N.eqb (fid f) n
    frame, outside loops, for the first time *)
 Definition alloc (top : bool) (a : N) (o : obj) (s : st) : st :=
   match hfind a (hp s) with
-  | Some old => set_hp s (hset a (ojoin old (mkobj (ofields o) (orest o) false)) (hp s))
-  | None => set_hp s (hset a (mkobj (ofields o) (orest o) (top && negb (mem a LS))) (hp s))
+  | Some old => set_hp s (hset a (ojoin old (mkobj (ofields o) (orest o) false (ocls o))) (hp s))
+  | None => set_hp s (hset a (mkobj (ofields o) (orest o) (top && negb (mem a LS)) (ocls o)) (hp s))
   end.
 Definition oshallow (h : heap) (v : ids) : obj :=
   match v with
-  | [] => mkobj [] [] true
+  | [] => mkobj [] [] true [0%N]
   | i :: r => fold_left (fun acc j => ojoin acc (hget j h)) r (hget i h)
   end.
 Definition weak_set (f : N) (v : ids) (h : heap) (i : N) : heap :=
-  let o := hget i h in hset i (mkobj (fset f (union v (fget o f)) (ofields o)) (orest o) (ouniq o)) h.
+  let o := hget i h in hset i (mkobj (fset f (union v (fget o f)) (ofields o)) (orest o) (ouniq o) (ocls o)) h.
 Definition add_rest (v : ids) (h : heap) (i : N) : heap :=
-  let o := hget i h in hset i (mkobj (ofields o) (union v (orest o)) (ouniq o)) h.
+  let o := hget i h in hset i (mkobj (ofields o) (union v (orest o)) (ouniq o) (ocls o)) h.
 Definition bind_params (ps : list (N * pkind)) (av : list (N * ids)) : list (N * ids) :=
   map (fun p => (fst p, eget (fst p) av)) ps.
 
@@ -260,7 +264,7 @@ Fixpoint eval (top : bool) (d n : nat) (e : expr) (s : st) {struct n} : ids * st
                     let r := eval top d n' (snd kv) (snd p) in (fset (fst kv) (fst r) (fst p), snd r)) fs ([], s) in
         let r2 := vals rest (snd r1) in
         let r3 := vals spread (snd r2) in
-        ([a], alloc top a (mkobj (fst r1) (union (fst r2) (get_elems (hp (snd r3)) (fst r3))) true) (snd r3))
+        ([a], alloc top a (mkobj (fst r1) (union (fst r2) (get_elems (hp (snd r3)) (fst r3))) true [0%N]) (snd r3))
     | EShallow a e1 =>
         let r := eval top d n' e1 s in
         ([a], alloc top a (oshallow (hp (snd r)) (fst r)) (snd r))
@@ -278,9 +282,17 @@ Fixpoint eval (top : bool) (d n : nat) (e : expr) (s : st) {struct n} : ids * st
     | ECall fs args =>
         let r := args_of args s in
         call [] fs (fst r) (snd r)
-    | ENew a inits args =>
+    | EMeth cands self args =>
+        let rs := eval top d n' self s in
+        let r := args_of args (snd rs) in
+        let h := hp (snd r) in
+        let known := unions (map (fun i => ocls (hget i h)) (fst rs)) in
+        let unknown := existsb (fun i => match ocls (hget i h) with [] => true | _ => false end) (fst rs) in
+        let sel := fold_right (fun c acc => if unknown || mem (fst c) known then add (snd c) acc else acc) [] cands in
+        call [(F_SELF, fst rs)] sel (fst r) (snd r)
+    | ENew a cls inits args =>
         let r := args_of args s in
-        let s1 := alloc top a (mkobj [] [] true) (snd r) in
+        let s1 := alloc top a (mkobj [] [] true [cls]) (snd r) in
         let r2 := call [(F_SELF, [a])] inits (fst r) s1 in
         ([a], snd r2)
     end
@@ -301,7 +313,7 @@ with exec (top : bool) (d n : nat) (t : stmt) (s : st) {struct n} : st :=
         let h := hp (snd ro) in
         let h' := match fst ro with
                   | [i] => let o := hget i h in
-                           if ouniq o then hset i (mkobj (fset f (fst r) (ofields o)) (orest o) true) h
+                           if ouniq o then hset i (mkobj (fset f (fst r) (ofields o)) (orest o) true (ocls o)) h
                            else weak_set f (fst r) h i
                   | l => fold_left (weak_set f (fst r)) l h
                   end in
@@ -339,7 +351,7 @@ Fixpoint init_params (j : N) (ps : list (N * pkind)) : list (N * ids) * heap * i
       | PBlob => ((x, [b]) :: e, h, b :: p)
       | PDA => ((x, [b]) :: e,
                 (b, mkobj [(F_DATA, [b + 1]); (F_COORDS, [b + 2]); (F_MASKS, [b + 3])]
-                          [b + 1; b + 2; b + 3] false)%N :: h,
+                          [b + 1; b + 2; b + 3] false [])%N :: h,
                 (b :: b + 1 :: b + 2 :: b + 3 :: p)%N)
       end
   end.
